@@ -11,6 +11,8 @@ ASSUMPTIONS_COMMON = [
     'no assume()/admit() in any generated file (scanned on every run)',
 ]
 
+HOOK_COMMITS = ['63b1378 verif hook: include external Kani harnesses under cfg(kani)']
+
 CLAIMED = ['C01', 'C02', 'C03', 'C05', 'C06', 'C07', 'C09', 'C12', 'C13', 'C14', 'C15', 'C16', 'C18', 'C20']
 
 INFO = {
